@@ -1,10 +1,25 @@
 (* Correspondence + property checker for C18 on observations of the real util.PadKeyTo32Bytes,
-   libp2p key unmarshalling / peer-id derivation, GetEthAddressFromPeerID and libp2p.New.
-   Definitions only. *)
+   libp2p key unmarshalling / peer-id derivation, GetEthAddressFromPeerID, libp2p.New, the repository's key
+   signers and the signature code paths of the node (handshake, bids, commitments).  Definitions only. *)
 From Coq Require Import String List NArith Bool.
 From MevVerif Require Import lib.Bytes lib.Keccak gen.Generated model.Identity.
 Import ListNotations.
 Open Scope N_scope.
+
+(* one key signer that was given the scalar d (0 = mock holding the key, 1 = private-key file, 2 = keystore) *)
+Record signer_obs := {
+  s_kind : N;
+  s_priv : N;                     (* GetPrivateKey().D *)
+  s_addr : bytes;                 (* GetAddress() *)
+  s_tr : option bytes;            (* GetEthAddressFromPeerID of the identity built, as libp2p.New builds it, from the key
+                                     this signer hands out (PadKeyTo32Bytes, unmarshal, peer id); None: no identity *)
+  s_rec : option bytes;           (* address pkg/signer Verify recovers from SignHash(Keccak256(role ++ token)),
+                                     the handshake request signature *)
+  s_hs : option bytes;            (* address a real peer (handshake.Service.Handle: verifyReq with its address-binding
+                                     check against s_tr's peer id) enrolled this node under; None: refused *)
+  s_bid : option bytes;           (* preconfsigner VerifyBid (ConstructSignedBid ...) *)
+  s_commit : option bytes         (* preconfsigner VerifyPreConfirmation (ConstructPreConfirmation ...) *)
+}.
 
 Record case := {
   id : N;
@@ -14,10 +29,12 @@ Record case := {
   comp : bytes;                   (* compressed public key derived by the transport library *)
   pid_obs : bytes;                (* peer id derived by the transport library *)
   px : N; py : N;                 (* crypto.DecompressPubkey(comp) *)
+  qx : N; qy : N;                 (* the public key of d by go-ethereum's curve (ScalarBaseMult), independent of the padding *)
   addr_pid_obs : option bytes;    (* GetEthAddressFromPeerID(pid) *)
-  addr_sign_obs : bytes;          (* the address the key signer reports (GetAddress; PubkeyToAddress for the mock) *)
-  addr_recovered : bytes;         (* address recovered from a signature the key signer made *)
-  full : bool;                    (* a real Service was started with this key *)
+  addr_pub_obs : bytes;           (* crypto.PubkeyToAddress of (qx, qy) *)
+  signers : list signer_obs;
+  full : bool;                    (* a real Service was started with the signer of kind [full_signer] *)
+  full_signer : N;
   start_ok : bool;
   host_pid : bytes;
   host_addr : option bytes
@@ -38,30 +55,62 @@ Definition decompress_of (c : case) : bytes -> option point :=
 
 Definition model_addr (c : case) : option bytes :=
   node_peer_addr keccak256 (pub_of c) (compress_of c) (decompress_of c) (d c).
+(* libp2p.New, as written now, with a signer that hands out the scalar [k] *)
+Definition model_addr_now (c : case) (k : N) : option bytes :=
+  node_peer_addr_now keccak256 (pub_of c) (compress_of c) (decompress_of c) (fun _ => k) (d c).
 
-Definition wiring_ok : bool :=
-  c18_new_pads_key &&
-  match c18_new_unmarshal_args with [[a]] => bytes_eqb a (bos "padded32BytePrivKey") | _ => false end &&
-  match c18_new_identity_args with [[a]] => bytes_eqb a (bos "libp2pKey") | _ => false end.
+(* the address of d's public key, computed here from the reference point *)
+Definition ref_addr (c : case) : bytes := eth_addr keccak256 (qx c, qy c).
+
+(* the three binding premises of C18_coherent, tested on this signer ([r] is [ref_addr c], computed once) *)
+Definition binding_priv (c : case) (s : signer_obs) : bool := s_priv s =? d c.
+Definition binding_addr (r : bytes) (s : signer_obs) : bool := bytes_eqb (s_addr s) r.
+Definition binding_recover (r : bytes) (s : signer_obs) : bool :=
+  opt_bytes_eqb (s_rec s) (Some r) && opt_bytes_eqb (s_hs s) (Some r) &&
+  opt_bytes_eqb (s_bid s) (Some r) && opt_bytes_eqb (s_commit s) (Some r).
+
+Definition full_signer_obs (c : case) : option signer_obs := find (fun s => s_kind s =? full_signer c) (signers c).
 
 Definition agrees (c : case) : bool :=
+  let r := ref_addr c in
+  let mnow := model_addr_now c (d c) in
   wiring_ok &&
   bytes_eqb (pad32 (min_be (d c))) (pad_obs c) &&
   Bool.eqb (unmarshal_ok c) (match unmarshal_priv (pad_obs c) with Some _ => true | None => false end) &&
   bytes_eqb (peerid (comp c)) (pid_obs c) &&
   opt_bytes_eqb (model_addr c) (addr_pid_obs c) &&
-  bytes_eqb (signing_addr keccak256 (pub_of c) (d c)) (addr_sign_obs c) &&
-  bytes_eqb (addr_recovered c) (addr_sign_obs c) &&
-  (negb (full c) || (start_ok c && bytes_eqb (host_pid c) (pid_obs c) && opt_bytes_eqb (host_addr c) (addr_pid_obs c))).
+  (* the transport library derived the public key of d, and go-ethereum's address of it is the model's *)
+  (px c =? qx c) && (py c =? qy c) &&
+  bytes_eqb r (addr_pub_obs c) &&
+  negb (match signers c with [] => true | _ => false end) &&
+  forallb (fun s => binding_priv c s && binding_addr r s && binding_recover r s &&
+                    opt_bytes_eqb (if s_priv s =? d c then mnow else model_addr_now c (s_priv s)) (s_tr s)) (signers c) &&
+  (negb (full c) ||
+   (start_ok c && bytes_eqb (host_pid c) (pid_obs c) && opt_bytes_eqb (host_addr c) (addr_pid_obs c) &&
+    match full_signer_obs c with Some _ => true | None => false end)).
 
 Definition mismatches (cs : list case) : list N := map id (filter (fun c => negb (agrees c)) cs).
 
-(* the property on the implementation's own answers *)
+(* the property on the implementation's own answers: the node can start, and the address peers derive from its
+   transport identity is the address the key signer reports and the address every kind of signature it makes is
+   recovered to (so a real peer's binding check enrols it, under that address) *)
+Definition signer_cannot_start (s : signer_obs) : bool := match s_tr s with None => true | Some _ => false end.
+Definition signer_differs (s : signer_obs) : bool :=
+  negb (opt_bytes_eqb (s_tr s) (Some (s_addr s))) ||
+  negb (opt_bytes_eqb (s_rec s) (Some (s_addr s))) ||
+  negb (opt_bytes_eqb (s_hs s) (Some (s_addr s))) ||
+  negb (opt_bytes_eqb (s_bid s) (Some (s_addr s))) ||
+  negb (opt_bytes_eqb (s_commit s) (Some (s_addr s))).
+
 Definition violation (c : case) : option string :=
-  if negb (unmarshal_ok c) || (full c && negb (start_ok c)) then Some "cannot-start"%string
-  else if negb (opt_bytes_eqb (addr_pid_obs c) (Some (addr_sign_obs c))) then Some "address-differs"%string
-  else if full c && negb (opt_bytes_eqb (host_addr c) (Some (addr_sign_obs c))) then Some "address-differs"%string
-  else if full c && negb (bytes_eqb (addr_recovered c) (addr_sign_obs c)) then Some "address-differs"%string
+  if negb (unmarshal_ok c) || (full c && negb (start_ok c)) || existsb signer_cannot_start (signers c)
+  then Some "cannot-start"%string
+  else if negb (opt_bytes_eqb (addr_pid_obs c) (Some (addr_pub_obs c))) then Some "address-differs"%string
+  else if existsb signer_differs (signers c) then Some "address-differs"%string
+  else if full c && negb (match full_signer_obs c with
+                          | Some s => opt_bytes_eqb (host_addr c) (Some (s_addr s))
+                          | None => true
+                          end) then Some "address-differs"%string
   else None.
 
 Definition violations (cs : list case) : list (N * string) :=
